@@ -51,6 +51,19 @@ def _shallow(v):
 
 def _apply_op(world, ev):
     """Run one thread event; the observation is computed atomically (no scheduling points)."""
+    if ev[0] == "newwrite":
+        # construct a NEW object on resource ev[1] and write through it at once: (construction, first lock use) race
+        _, r, key = ev
+        try:
+            o = world.resources[r].make(world.cfg.clsname)
+            world.objects.append(o)
+            if hasattr(o, "keys"):
+                o[key] = 1
+            else:
+                o.append(key)
+        except Exception as e:  # noqa: BLE001
+            return ("exc", type(e).__name__)
+        return ("ok", "null")
     if ev[0] != "op":
         out = world.apply(ev)
         if out is not None and out[0] == "exc":
